@@ -286,7 +286,7 @@ def run_c01(prop, tier):
                 for ln in sorted(set([1, n // 2, n - 1])):
                     if 0 < ln < n:
                         jobs.append((prog, "%d:%d" % (idx, ln)))
-                        if tier != "quick":
+                        if tier != "quick" or len(prog) == 1:
                             # second deviation: the continuation write is short again
                             rest = n - ln
                             if rest > 1:
